@@ -13,7 +13,7 @@ REAL = ["train_* routines", "sample_actions / sample_target_actions", "Determini
 STUB = ["environment (SimEnv, checks bounds)", "reward model (probe)", "sampler (recording)"]
 ASSUMPTIONS = ["tolerance 1 ulp of max|bound| for policy-driven actions, 0 for sampled (warm-up) actions",
                "'any network output however large' and key-determined noise form are pure clauses and not decided here"]
-TIERS = {"quick": {"runs": 64}, "thorough": {"runs": 1500}}
+TIERS = {"quick": {"runs": 128}, "thorough": {"runs": 2000}}
 REQUIRED = ["actions_in_bounds", "action_on_bound", "target_actions_in_bounds", "smoothing_within_noise_clip", "planner_candidates_in_bounds", "noise0_action_equals_policy", "noise_scale_samples", "other_bounds_trained_first_in_process"]
 REQUIRED_QUICK = ["actions_in_bounds", "target_actions_in_bounds", "planner_candidates_in_bounds"]
 CHUNK = 24  # TrainSim plans per fresh worker process
